@@ -19,6 +19,7 @@ import (
 	"runtime"
 	"sort"
 	"strings"
+	"sync"
 	"time"
 
 	"golang.org/x/tools/go/packages"
@@ -27,35 +28,36 @@ import (
 )
 
 type JobFile struct {
-	Dir      string            `json:"dir"`
-	Pkg      string            `json:"pkg"`
-	Files    []string          `json:"files"`
-	Tests    bool              `json:"tests"`
-	Defaults json.RawMessage   `json:"defaults"`
-	Jobs     []json.RawMessage `json:"jobs"`
-	Solver   []string          `json:"solver"`
-	Tags     []string          `json:"buildTags"`
+	Dir          string            `json:"dir"`
+	Pkg          string            `json:"pkg"`
+	Files        []string          `json:"files"`
+	Tests        bool              `json:"tests"`
+	Defaults     json.RawMessage   `json:"defaults"`
+	Jobs         []json.RawMessage `json:"jobs"`
+	Solver       []string          `json:"solver"`
+	Tags         []string          `json:"buildTags"`
+	ParallelJobs int               `json:"parallelJobs"`
 }
 
 type JobResult struct {
-	Name         string            `json:"name"`
-	Entry        string            `json:"entry"`
-	Args         []int64           `json:"args"`
-	Config       Config            `json:"config"`
-	Stats        Stats             `json:"stats"`
-	Violations   []*Violation      `json:"violations"`
-	Incomplete   map[string]int    `json:"incomplete"`
-	Unsupported  map[string]int    `json:"unsupported"`
-	Blocked      map[string]int    `json:"blocked"`
-	Cuts         map[string]int    `json:"cuts"`
-	Reached      map[string]bool   `json:"reached"`
-	Functions    []string          `json:"functions"`
-	MergeAborts  map[string]int    `json:"mergeAborts"`
-	Samples      []string          `json:"samples"`
-	WallS        float64           `json:"wall_s"`
-	SolverS      float64           `json:"solver_s"`
-	Exhaustive   bool              `json:"exhaustive"`
-	Note         string            `json:"note"`
+	Name        string          `json:"name"`
+	Entry       string          `json:"entry"`
+	Args        []int64         `json:"args"`
+	Config      Config          `json:"config"`
+	Stats       Stats           `json:"stats"`
+	Violations  []*Violation    `json:"violations"`
+	Incomplete  map[string]int  `json:"incomplete"`
+	Unsupported map[string]int  `json:"unsupported"`
+	Blocked     map[string]int  `json:"blocked"`
+	Cuts        map[string]int  `json:"cuts"`
+	Reached     map[string]bool `json:"reached"`
+	Functions   []string        `json:"functions"`
+	MergeAborts map[string]int  `json:"mergeAborts"`
+	Samples     []string        `json:"samples"`
+	WallS       float64         `json:"wall_s"`
+	SolverS     float64         `json:"solver_s"`
+	Exhaustive  bool            `json:"exhaustive"`
+	Note        string          `json:"note"`
 }
 
 type RunResult struct {
@@ -136,6 +138,11 @@ func runJobs(jobPath, outPath, only string, verbose bool) int {
 		fmt.Fprintf(os.Stderr, "loaded %s in %.1fs\n", jf.Pkg, res.LoadS)
 	}
 	rc := 0
+	type pending struct {
+		cfg  Config
+		name string
+	}
+	var todo []pending
 	for _, raw := range jf.Jobs {
 		cfg := defaultConfig()
 		if len(jf.Defaults) > 0 {
@@ -155,38 +162,51 @@ func runJobs(jobPath, outPath, only string, verbose bool) int {
 		if only != "" && !strings.Contains(named.Name, only) {
 			continue
 		}
-		jr := runJob(prog, mainPkg, allPkgs, cfg, named.Name)
-		res.Jobs = append(res.Jobs, jr)
-		if verbose {
-			fmt.Fprintf(os.Stderr, "job %s: paths=%d obligations=%d discharged=%d violated=%d undischarged=%d queries=%d solver=%.1fs wall=%.1fs exhaustive=%v\n",
-				jr.Name, jr.Stats.Paths, jr.Stats.Obligations, jr.Stats.Discharged, jr.Stats.Violated, jr.Stats.Undischarged, jr.Stats.Queries, jr.SolverS, jr.WallS, jr.Exhaustive)
-			for _, v := range jr.Violations {
-				fmt.Fprintf(os.Stderr, "  VIOLATION %s in %s [%s] %s x%d  %v\n", v.Kind, v.Fn, v.Site, v.Msg, v.Count, trunc(v.Inputs, 24))
+		todo = append(todo, pending{cfg, named.Name})
+	}
+	par := jf.ParallelJobs
+	if par <= 0 {
+		par = min(len(todo), 8)
+	}
+	if par < 1 {
+		par = 1
+	}
+	results := make([]*JobResult, len(todo))
+	sem := make(chan struct{}, par)
+	var wg sync.WaitGroup
+	var outMu sync.Mutex
+	for i, p := range todo {
+		if p.cfg.Workers <= 0 || par > 1 {
+			w := runtime.NumCPU() / par
+			if w < 2 {
+				w = 2
 			}
-			for k, n := range jr.Incomplete {
-				fmt.Fprintf(os.Stderr, "  INCOMPLETE x%d %s\n", n, k)
+			if p.cfg.Workers <= 0 || p.cfg.Workers > w {
+				p.cfg.Workers = w
 			}
-			for k, n := range jr.Unsupported {
-				fmt.Fprintf(os.Stderr, "  UNSUPPORTED x%d %s\n", n, k)
-			}
-			for k, n := range jr.Blocked {
-				fmt.Fprintf(os.Stderr, "  BLOCKED x%d %s\n", n, k)
-			}
-			for k, n := range jr.Cuts {
-				fmt.Fprintf(os.Stderr, "  CUT x%d %s\n", n, k)
-			}
-			for k, n := range jr.MergeAborts {
-				fmt.Fprintf(os.Stderr, "  merge-abort x%d %s\n", n, k)
-			}
-			for k, ok := range jr.Reached {
-				if !ok {
-					fmt.Fprintf(os.Stderr, "  UNREACHED tag %s\n", k)
+		}
+		wg.Add(1)
+		sem <- struct{}{}
+		go func(i int, p pending) {
+			defer wg.Done()
+			defer func() { <-sem }()
+			jr := runJob(prog, mainPkg, allPkgs, p.cfg, p.name)
+			outMu.Lock()
+			defer outMu.Unlock()
+			results[i] = jr
+			res.Jobs = res.Jobs[:0]
+			for _, r := range results {
+				if r != nil {
+					res.Jobs = append(res.Jobs, r)
 				}
 			}
-			fmt.Fprintf(os.Stderr, "  path ends: %v\n", jr.Stats.PathsEnded)
-		}
-		writeOut()
+			if verbose {
+				printJob(jr)
+			}
+			writeOut()
+		}(i, p)
 	}
+	wg.Wait()
 	writeOut()
 	return rc
 }
@@ -344,4 +364,33 @@ func (w *World) findFunc(pkg, name string) *ssa.Function {
 		return nil
 	}
 	return p.Func(name)
+}
+
+func printJob(jr *JobResult) {
+	fmt.Fprintf(os.Stderr, "job %s: paths=%d obligations=%d discharged=%d violated=%d undischarged=%d queries=%d solver=%.1fs wall=%.1fs exhaustive=%v\n",
+		jr.Name, jr.Stats.Paths, jr.Stats.Obligations, jr.Stats.Discharged, jr.Stats.Violated, jr.Stats.Undischarged, jr.Stats.Queries, jr.SolverS, jr.WallS, jr.Exhaustive)
+	for _, v := range jr.Violations {
+		fmt.Fprintf(os.Stderr, "  VIOLATION %s in %s [%s] %s x%d  %v\n", v.Kind, v.Fn, v.Site, v.Msg, v.Count, trunc(v.Inputs, 24))
+	}
+	for k, n := range jr.Incomplete {
+		fmt.Fprintf(os.Stderr, "  INCOMPLETE x%d %s\n", n, k)
+	}
+	for k, n := range jr.Unsupported {
+		fmt.Fprintf(os.Stderr, "  UNSUPPORTED x%d %s\n", n, k)
+	}
+	for k, n := range jr.Blocked {
+		fmt.Fprintf(os.Stderr, "  BLOCKED x%d %s\n", n, k)
+	}
+	for k, n := range jr.Cuts {
+		fmt.Fprintf(os.Stderr, "  CUT x%d %s\n", n, k)
+	}
+	for k, n := range jr.MergeAborts {
+		fmt.Fprintf(os.Stderr, "  merge-abort x%d %s\n", n, k)
+	}
+	for k, ok := range jr.Reached {
+		if !ok {
+			fmt.Fprintf(os.Stderr, "  UNREACHED tag %s\n", k)
+		}
+	}
+	fmt.Fprintf(os.Stderr, "  path ends: %v\n", jr.Stats.PathsEnded)
 }
